@@ -16,6 +16,9 @@ Rules (every non-test module under thejoker/, the .pyx by text):
  R8  run_worker spawns one child per task from the parent's seed sequence: sg = rng.bit_generator._seed_seq.spawn(len(tasks))
      and builds task i's generator from sg[i]
  R9  the samplers hand rng=self.rng to the helper functions
+ R10 no generator is built anywhere else: Generator(..) / PCG64(..) / SeedSequence(..) calls and reads of `_seed_seq` occur only
+     in run_worker's spawn (R8) -- a generator rebuilt from the parent's seed sequence restarts the parent's own stream
+     (Model/Rng.v: child keys are fresh, the parent stream is read in disjoint segments)
 """
 import ast
 import os
@@ -98,11 +101,27 @@ def scan(repo):
                 if ast.unparse(fn).endswith("rng_context"):
                     rng_context_calls += 1
                     findings.append(f"{rel}:{node.lineno} R7 rng_context (swaps numpy's global bit generator) is used")
+                # R10
+                ctor = ast.unparse(fn).split(".")[-1]
+                if ctor in ("Generator", "PCG64", "SeedSequence", "MT19937", "Philox", "SFC64", "RandomState"):
+                    encl = node
+                    while encl in parents and not isinstance(encl, ast.FunctionDef):
+                        encl = parents[encl]
+                    if not (rel.endswith("multiproc_helpers.py") and isinstance(encl, ast.FunctionDef) and encl.name == "run_worker"):
+                        findings.append(f"{rel}:{node.lineno} R10 a generator is constructed outside run_worker's per-task spawn: `{ast.unparse(node)[:70]}`")
                 # R9
                 if rel.endswith("thejoker.py") and isinstance(fn, ast.Name) and fn.id in ("rejection_sample_inmem", "rejection_sample_helper", "iterative_rejection_inmem", "iterative_rejection_helper"):
                     kws = {k.arg: ast.unparse(k.value) for k in node.keywords}
                     if kws.get("rng") != "self.rng":
                         findings.append(f"{rel}:{node.lineno} R9 {fn.id}(...) not given rng=self.rng")
+        # R10 (reads of the seed sequence)
+        for node in ast.walk(tree):
+            if isinstance(node, ast.Attribute) and node.attr in ("_seed_seq", "seed_seq"):
+                encl = node
+                while encl in parents and not isinstance(encl, ast.FunctionDef):
+                    encl = parents[encl]
+                if not (rel.endswith("multiproc_helpers.py") and isinstance(encl, ast.FunctionDef) and encl.name == "run_worker"):
+                    findings.append(f"{rel}:{node.lineno} R10 the generator's seed sequence is read outside run_worker's per-task spawn")
         # R8
         if rel.endswith("multiproc_helpers.py"):
             rw = next((n for n in tree.body if isinstance(n, ast.FunctionDef) and n.name == "run_worker"), None)
